@@ -5,7 +5,7 @@ Cross-check of extraction for C06: recomputes, INSIDE Coq with vm_compute, the n
 extracted OCaml oracle computed for the first `max_cases` scenario records, per ListUsers request:
 validate; every possible answer of Query/ListUsers.v list_users (number of answers, each answer's
 length and subject codes), error and ambiguity class masks, the trigger flags (race, excl_cycle,
-union/inter/excl/merge _den_fail) as a bit mask, the distinct-key counts behind the result-limit verdict, stratified, and (converged, holds3) for every
+union/inter/excl/merge _den_fail) as a bit mask, the distinct-key counts and the cut-short-traversal keys behind the result-limit verdict, stratified, and (converged, holds3) for every
 subject whose reference value enters the verdict (returned entries, then the candidates of the
 completeness predicate in the order of the record's check section).  Compares them with the
 oracle's dump.  Prints `COQREPLAY ok ...` or the mismatches; exit 1 on a mismatch."""
@@ -90,7 +90,9 @@ PRELUDE = ["From OFGA Require Import Query.ListUsers.", "Open Scope N_scope.",
      "  | None => 0 :: if skip then [] else",
      "      let lf := list_users m cs st ft fr depth pruned o r in",
      "      (N.of_nat (length (lf_results lf)) :: flat_map (fun res => N.of_nat (length res) :: map scode res) (lf_results lf))",
-     "      ++ (if lim then let ks := list_users_nkeys m cs st ft fr depth pruned o r in N.of_nat (length ks) :: map N.of_nat ks else [])",
+     "      ++ (if lim then let ks := list_users_nkeys m cs st ft fr depth pruned o r in",
+     "             let may := list_users_may m cs st ft fr depth pruned o r in",
+     "             (N.of_nat (length ks) :: map N.of_nat ks) ++ (N.of_nat (length may) :: map scode may) else [])",
      "      ++ [emask (lf_errs lf); emask (lf_amb lf); tmask (lf_trig lf); bN strat]",
      "      ++ (if semok && strat then N.of_nat (length sems) :: flat_map (fun p : subject * (valuation * bool) =>",
      "             [bN (snd (snd p)); code3 (atomval (fst p) (fst (snd p)) o r)]) sems else [0])",
@@ -153,7 +155,7 @@ def gen_case(cid, vals):
         parts.append("rq m cs st strat %s %s %d%%nat %s %s %s %s %s %s %s" % (
             N(ft), N(fr), depth, bool_(edges == 0), bool_(skip), bool_(semok), bool_(limit > 0), obj(ot, oi), N(r), lst(sems)))
     body = " ++ ".join(parts) or "[]"
-    return ("Definition case_%s : list N := let m := %s in let cs := %s in let st := %s in let ats := %s in "
+    return ("Definition case_%s : list N := let m : model := %s in let cs : list cid := %s in let st : list tuple := %s in let ats : list atom := %s in "
             "let strat := stratified m in %s %s." % (
                 cid, model(m), lst([N(c) for c in conds]), lst([tup(t) for t in tuples]),
                 lst(["(%s, %s)" % (obj(a[0], a[1]), N(a[2])) for a in atoms]), " ".join(lets), body))
